@@ -189,6 +189,17 @@ def float_cases(chk, rng):
         rows = [{'t': [rank[x]], 'd': [k % 2]} for k, x in enumerate(xs)]
         cases.append({'c': {'S': 1, 'W': 1, 'classes': classes, 'edges': [rank[float(e)] for e in edges]}, 'rows': rows})
         real.append((edges, np.array([[x] for x in xs], dtype='float64'), np.array([[k % 2] for k in range(len(xs))], dtype='uint8')))
+        # the same edges (float64) with float32 traces: the float32 images of the edges, their float32 neighbours, mid-bin points
+        xs32 = []
+        for e in edges:
+            f = np.float32(e)
+            xs32 += [f, np.nextafter(f, np.float32(-np.inf)), np.nextafter(f, np.float32(np.inf))]
+        xs32 += [np.float32((a + b) / 2) for a, b in zip(edges, edges[1:])]
+        xs32 = [x for x in xs32]
+        all32 = sorted(set(float(x) for x in xs32) | set(float(e) for e in edges))
+        rank32 = {v: i for i, v in enumerate(all32)}
+        cases.append({'c': {'S': 1, 'W': 1, 'classes': classes, 'edges': [rank32[float(e)] for e in edges]}, 'rows': [{'t': [rank32[float(x)]], 'd': [k % 2]} for k, x in enumerate(xs32)]})
+        real.append((edges, np.array([[x] for x in xs32], dtype='float32'), np.array([[k % 2] for k in range(len(xs32))], dtype='uint8')))
     res = st.cases_run(chk, 'MiaCases', cases, ['TotalsAreCounts'], 'CASES:float-edges(rank presentation)')
     for ci, (case, rs) in enumerate(zip(cases, res)):
         edges, t, d = real[ci]
